@@ -189,7 +189,8 @@ func runHist[K any](h *hk[K]) {
 		op, spec := vpParam(pi), vpParam(pi+1)
 		pi += 2
 		var k K
-		if op == opInsertC || op == opDeleteC {
+		wasConcrete := op == opInsertC || op == opDeleteC
+		if wasConcrete {
 			k = h.concKey(spec)
 			op -= 3
 		} else {
@@ -225,7 +226,9 @@ func runHist[K any](h *hk[K]) {
 		if mask&ckSize != 0 {
 			vpAssert(uint64(t.Size()) == ref.count(), "C06 size after op")
 		}
-		if mask&ckShape != 0 {
+		// after a run of concrete base operations the walker runs once (at its end); after every symbolic one
+		nextConcrete := i+1 < nOps && (vpParam(pi) == opInsertC || vpParam(pi) == opDeleteC)
+		if mask&ckShape != 0 && !(wasConcrete && nextConcrete) {
 			st := h.state(t)
 			vpAssert(wellFormed(st.lv, st.root, st.size), "C11 index well-formed after op")
 			vpAssert(uint64(st.size) == ref.count(), "C11 reachable keys equal the reference cardinality")
@@ -333,9 +336,24 @@ func checkRetain[K any](h *hk[K], t Tree[K, uint64], ref *refMap[K], cyc, spec i
 			if h.bytesOf != nil {
 				collect(t.Prefix(h.clone(k)))
 			}
-			if !h.scratch {
-				collect(t.Range(h.clone(k), h.clone(k)))
+			collect(t.Range(h.clone(k), h.clone(k))) // result not judged here (C03); memory is
+			collect(t.TopK(1))
+			collect(t.BottomK(1))
+		case 10:
+			t.Search(h.clone(k))
+		case 11:
+			t.Minimum()
+			t.Maximum()
+		case 12:
+			collect(t.All())
+			collect(t.Backward())
+		case 13:
+			if h.bytesOf != nil {
+				collect(t.Prefix(h.clone(k)))
 			}
+		case 14: // a Range-only history (a mixed one can hide a leak that another method resets)
+			collect(t.Range(h.clone(k), h.clone(k)))
+		case 15:
 			collect(t.TopK(1))
 			collect(t.BottomK(1))
 		case 1: // overwrite of a present key
@@ -390,6 +408,30 @@ func checkPure[K any](h *hk[K], t Tree[K, uint64], ref *refMap[K], which, sa, sb
 	}
 	snap := vpSnapshot(h.state(t))
 	pool0 := vpPoolOps()
+	if vpRaceNative() && which <= 5 {
+		// native confirmation of the reader premise: the same query from two goroutines on the quiescent tree
+		var q func()
+		switch which {
+		case 0:
+			k0 := mkKey(h, sa)
+			q = func() { t.Search(h.clone(k0)) }
+		case 1:
+			q = func() { t.Minimum(); t.Maximum(); t.Size() }
+		case 2:
+			q = func() { collect(t.All()); collect(t.Backward()) }
+		case 3:
+			k0 := mkKey(h, sa)
+			q = func() { collect(t.Prefix(h.clone(k0))) }
+		case 4:
+			a, b := mkKey(h, sa), mkKey(h, sb)
+			q = func() { collect(t.Range(h.clone(a), h.clone(b))) }
+		case 5:
+			n1, n2 := uint(vpU64()), uint(vpU64())
+			q = func() { collect(t.TopK(n1)); collect(t.BottomK(n2)) }
+		}
+		vpRunConcurrently(q, q)
+		return
+	}
 	vpReaderWindow(1)
 	vpApi()
 	switch which {
@@ -647,6 +689,18 @@ func alphaKeyBytes(spec int) []byte {
 }
 
 func alphaConcKey(spec int) []byte {
+	if spec&(1<<29) != 0 {
+		// the shared concrete stem of alphaKeyBytes (length bits 16..23), optionally followed by one byte
+		p := (spec >> 16) & 0xff
+		b := make([]byte, 0, p+1)
+		for i := 0; i < p; i++ {
+			b = append(b, byte('a'+i))
+		}
+		if spec&(1<<28) == 0 {
+			b = append(b, byte(spec))
+		}
+		return b
+	}
 	n := spec >> 24
 	b := make([]byte, 0, n)
 	for i := 0; i < n; i++ {
